@@ -67,7 +67,7 @@ partial def symScopeOfJson (j : Json) : R SymScope := do
     | "module" => pure ScopeKind.module
     | "function" => pure ScopeKind.function
     | "class" => pure ScopeKind.class_
-    | k => throw s!"scope kind {k}"
+    | _ => pure ScopeKind.other_
   pure (.mk (← jStr a[0]!) kind (← jNat a[2]!) (← (← jArr a[3]!).toList.mapM symInfoOfJson)
     (← jStrList a[4]!) (← jStrList a[5]!) (← jStrList a[6]!) (← jStrList a[7]!)
     (← (← jArr a[8]!).toList.mapM symScopeOfJson))
